@@ -3,6 +3,7 @@ package main
 import (
 	"encoding/hex"
 	"encoding/json"
+	"strings"
 	"sync"
 	"unicode/utf8"
 )
@@ -70,7 +71,8 @@ type ReaderSpec struct {
 // Case is one element of the enumerated space; check(Case) is a pure function of it
 // (up to Go's map iteration order inside the client, which the oracle does not depend on).
 type Case struct {
-	Payload string      `json:"payload"`          // nil|value|reader|form
+	Payload string      `json:"payload"`          // nil|value|reader|form|sequence
+	Seq     *SeqSpec    `json:"seq,omitempty"`    // payload == sequence: adaptive multipart sequence (sequence.go)
 	Media   string      `json:"media"`            // the single entry of ConsumesMediaTypes
 	Value   string      `json:"value,omitempty"`  // value id, see values
 	Reader  *ReaderSpec `json:"reader,omitempty"` // payload == reader
@@ -105,6 +107,9 @@ var kinds = []string{"ascii", "nul", "bin", "utf8", "bom", "pdf", "png", "html",
 // of the given kind (so truncation, duplication and reordering are all visible).
 // The result is cached and shared: callers must not modify it.
 func content(kind string, n int) []byte {
+	if strings.HasPrefix(kind, litPrefix) {
+		return []byte(kind[len(litPrefix):]) // literal content (adaptive sequences); not cached
+	}
 	key := contentKey{kind, n}
 	if b, ok := contentCache.Load(key); ok {
 		return b.([]byte)
@@ -113,6 +118,9 @@ func content(kind string, n int) []byte {
 	contentCache.Store(key, b)
 	return b
 }
+
+// litPrefix marks a content kind that carries the bytes themselves.
+const litPrefix = "lit:"
 
 type contentKey struct {
 	kind string
